@@ -52,6 +52,15 @@ check("C04", "runtime monitoring: post-condition monitors on Backend.full_probab
       "Trusted: own permanent; allowance 1e-9 x (number of full output patterns); <=5-6 photons, <=14 modes incl. loss.",
       "DESIGN.md 4 C04")
 
+check("C05", "runtime monitoring: results of Simulator/Sampler/Analyzer/QuickSampler recorded at the API boundary for the "
+      "same configuration and judged by a relation checker (analyzer=sampler on heralded outputs, performance, "
+      "error rate, quick sampler = conditioned+renormalised sampler, |amp|^2 = probability, consistent refusals)",
+      "Held on the configurations explored (heralds with photons, in!=out heralds, loss, rule-set and predicate "
+      "post-selection, both detector modes): all stated relations hold to 1e-7 and no object refused a configuration "
+      "the others accept.",
+      "Trusted: the relation arithmetic in /verif/lwverif/checks/c05.py; the sampler's own distribution is the common "
+      "reference (C04 decides its correctness); <=5 photons incl. heralds.", "DESIGN.md 4 C05")
+
 NOT_APPLICABLE = []
 _EXPLICIT_NA = {}
 for line in open("/verif/properties.jsonl"):
